@@ -2,6 +2,7 @@ package jsonapi
 
 import (
 	"context"
+	"io"
 	"mime"
 	"net/http"
 	"strconv"
@@ -63,6 +64,16 @@ func errorForHTTPStatus(status int) types.Error {
 	}
 }
 
+// decodeRequestDocument decodes the request body, which must consist of exactly one JSON value
+// (surrounding whitespace is fine).
+func decodeRequestDocument(r *http.Request, v any) error {
+	body, err := io.ReadAll(r.Body)
+	if err != nil {
+		return err
+	}
+	return jsoniter.Unmarshal(body, v)
+}
+
 func (api API) getResource(ctx context.Context, id types.ResourceId) (*types.Resource, *types.Error) {
 	if resourceType, ok := api.Schema.resourceTypes[id.Type]; ok {
 		return resourceType.get(ctx, id)
@@ -86,7 +97,7 @@ func (api API) getResources(ctx context.Context, ids []types.ResourceId) ([]type
 
 func (api API) handlePatchResourceRequest(ctx context.Context, r *http.Request, resourceType AnyResourceType, resourceId types.ResourceId) *types.ResponseDocument {
 	var patch types.PatchResourceRequest
-	if err := jsoniter.NewDecoder(r.Body).Decode(&patch); err != nil {
+	if err := decodeRequestDocument(r, &patch); err != nil {
 		return &types.ResponseDocument{
 			Errors: []types.Error{errorForHTTPStatus(http.StatusBadRequest)},
 		}
@@ -246,7 +257,7 @@ func (api API) executeRequest(r *http.Request) *response {
 			if len(pathComponents) == 1 && r.Method == "POST" {
 				// new resource request
 				var patch types.PostResourceRequest
-				if err := jsoniter.NewDecoder(r.Body).Decode(&patch); err != nil {
+				if err := decodeRequestDocument(r, &patch); err != nil {
 					return &response{
 						Document: types.ResponseDocument{
 							Errors: []types.Error{errorForHTTPStatus(http.StatusBadRequest)},
@@ -409,7 +420,7 @@ func (api API) executeRequest(r *http.Request) *response {
 						}
 					case "PATCH":
 						var patch types.RelationshipData
-						if err := jsoniter.NewDecoder(r.Body).Decode(&patch); err != nil {
+						if err := decodeRequestDocument(r, &patch); err != nil {
 							return &response{
 								Document: types.ResponseDocument{
 									Errors: []types.Error{errorForHTTPStatus(http.StatusBadRequest)},
@@ -428,7 +439,7 @@ func (api API) executeRequest(r *http.Request) *response {
 						}
 					case "POST":
 						var patch types.PostRelationshipRequest
-						if err := jsoniter.NewDecoder(r.Body).Decode(&patch); err != nil {
+						if err := decodeRequestDocument(r, &patch); err != nil {
 							return &response{
 								Document: types.ResponseDocument{
 									Errors: []types.Error{errorForHTTPStatus(http.StatusBadRequest)},
@@ -447,7 +458,7 @@ func (api API) executeRequest(r *http.Request) *response {
 						}
 					case "DELETE":
 						var patch types.DeleteRelationshipRequest
-						if err := jsoniter.NewDecoder(r.Body).Decode(&patch); err != nil {
+						if err := decodeRequestDocument(r, &patch); err != nil {
 							return &response{
 								Document: types.ResponseDocument{
 									Errors: []types.Error{errorForHTTPStatus(http.StatusBadRequest)},
